@@ -20,7 +20,7 @@ from lib.progs import V, A, F
 sys.setrecursionlimit(max(sys.getrecursionlimit(), 20000))
 
 ID = 'C17'
-THEOREMS = ['C17_prefix_mono', 'C17_sld_answers_prefix_monotone', 'C17_machine_answers_prefix_monotone', 'C17_machine_result_is_prefix',
+THEOREMS = ['C17_prefix_mono', 'C17_sld_answers_prefix_monotone', 'C17_machine_answers_prefix_monotone', 'C17_engine_with_python_predicates_prefix_monotone', 'C17_machine_result_is_prefix',
             'C17_machine_complete_when_shallow', 'C17_result_is_prefix', 'C17_complete_when_shallow',
             'C17_no_depth_error_escapes', 'C17_rlimit_restored', 'C17_generator_closed_on_every_branch',
             'C17_vars_unbound_after', 'C17_result_collected_so_far', 'C17_nested_keeps_rlimit']
